@@ -119,6 +119,12 @@ def generate(batch: str, r: Rng, idx: int, tier: str) -> Dict[str, Any]:
     # keyboard interrupts switched off in a quarter of the machines: a configuration flag that must survive too
     scn["kb"] = dict(scn.get("kb") or {})
     scn["kb"]["kb_irq"] = bool(r.child("kbirq").chance(3, 4))
+    if executor == "rs-machine" and r.child("kbrepeat").chance(1, 4):
+        # a host-side option of the Rust matrix that is not part of a bundle: auto-repeat switched off, with short
+        # repeat timing so that a held key would repeat within the run
+        scn["kb"]["repeat"] = False
+        scn["kb"]["repeat_delay"] = 2
+        scn["kb"]["repeat_interval"] = 2
     # constructor arguments a restarted emulator is given again (same values): they must not leak into restored state
     rcx = r.child("ctor")
     if executor == "py-machine" and rcx.chance(1, 3):
